@@ -9,7 +9,7 @@ GEN = []
 TRUSTED = ["model: Model/Capture (accumulator over an abstract pipe); tokio / epoll / kernel pipes are not modelled",
            "model: Model/Display (description heuristics, highlight, trailing newline); strip-ansi-escapes is not modelled (a Piece.strip says which bytes it is handed; in the correspondence its result on every such piece is a table computed with the real crate); bstr lines / lines_with_terminator / trim_end_with / rfind and the regexes ^thread '([^']+)' panicked at  and ^Error:  (multi-line, bytes, Unicode; find_iter non-overlapping) are modelled from their documentation; the failure style's escape sequences are read off the status line",
            "the event-log tap records length + xxh64 of every captured stream per attempt; the expected bytes are recomputed from the scripted pattern"]
-ASSUMPTIONS = ["the documented normalisations (lossy UTF-8, ANSI and XML-invalid character stripping) are checked on one fixed hostile output (controls, ANSI escape, U+FFFE/U+FFFF, astral planes, private use, invalid UTF-8) against a pinned expected text; the combined capture mode is not exercised"]
+ASSUMPTIONS = ["the documented normalisations (lossy UTF-8, ANSI and XML-invalid character stripping) are checked on one fixed hostile output (controls, ANSI escape, U+FFFE/U+FFFF, astral planes, private use, invalid UTF-8) against a pinned expected text; the XML side is proved and corresponded on random texts in C17 (Model/XmlText)"]
 
 
 def uhb(x):
